@@ -685,7 +685,7 @@ impl Property for C03 {
                         // first layer relative to a modest region so that most writes land inside the device box
                         gen_stack_rel(src, &dev_r, &virt0, dev_kind)
                     } else {
-                        gen_stack(src, &dev_r, dev_kind, 3, true, 24, true)
+                        gen_stack(src, &dev_r, dev_kind, 3, true, 24, true, true)
                     }
                 }
             };
